@@ -1408,3 +1408,1052 @@ Print Assumptions flush_refines_direct.
 Print Assumptions replay_rounds_refines.
 Print Assumptions status_delivery.
 Print Assumptions collective_rounds_agree.
+
+(* ------------------------------------------------------------------------------------------- *)
+(** * Part II: sessions.  The burst-buffer world refines the default driver. *)
+
+(** ** list surgery on the rank table *)
+Lemma upd_nth_length : forall (A : Type) (k : nat) (x : A) (l : list A), length (upd_nth k x l) = length l.
+Proof.
+  intros A k x l. revert k. induction l as [|y r IH]; intros [|k]; cbn [upd_nth length]; try reflexivity.
+  rewrite IH. reflexivity.
+Qed.
+
+Lemma upd_nth_split : forall (A : Type) (k : nat) (x : A) (l : list A), (k < length l)%nat ->
+  upd_nth k x l = firstn k l ++ x :: skipn (S k) l.
+Proof.
+  intros A k x l. revert k. induction l as [|y r IH]; intros [|k] Hk; cbn [length] in Hk; try lia.
+  - reflexivity.
+  - cbn [upd_nth firstn skipn app]. f_equal. apply IH. lia.
+Qed.
+
+Lemma nth_split_eq : forall (A : Type) (k : nat) (d : A) (l : list A), (k < length l)%nat ->
+  l = firstn k l ++ nth k l d :: skipn (S k) l.
+Proof.
+  intros A k d l. revert k. induction l as [|y r IH]; intros [|k] Hk; cbn [length] in Hk; try lia.
+  - reflexivity.
+  - cbn [firstn skipn nth app]. f_equal. apply IH. lia.
+Qed.
+
+Lemma upd_nth_ge : forall (A : Type) (k : nat) (x : A) (l : list A), (length l <= k)%nat -> upd_nth k x l = l.
+Proof.
+  intros A k x l. revert k. induction l as [|y r IH]; intros [|k] Hk; cbn [length] in Hk; try lia; try reflexivity.
+  cbn [upd_nth]. f_equal. apply IH. lia.
+Qed.
+
+Lemma nth_upd_nth_same : forall (A : Type) (k : nat) (x d : A) (l : list A), (k < length l)%nat ->
+  nth k (upd_nth k x l) d = x.
+Proof.
+  intros A k x d l. revert k. induction l as [|y r IH]; intros [|k] Hk; cbn [length] in Hk; try lia.
+  - reflexivity.
+  - cbn [upd_nth nth]. apply IH. lia.
+Qed.
+
+Lemma nth_upd_nth_other : forall (A : Type) (k j : nat) (x d : A) (l : list A), j <> k ->
+  nth j (upd_nth k x l) d = nth j l d.
+Proof.
+  intros A k j x d l. revert k j. induction l as [|y r IH]; intros [|k] [|j] Hne; cbn [upd_nth nth]; try reflexivity; try lia.
+  apply IH. lia.
+Qed.
+
+Lemma Forall_upd_nth : forall (A : Type) (P : A -> Prop) (k : nat) (x : A) (l : list A),
+  Forall P l -> P x -> Forall P (upd_nth k x l).
+Proof.
+  intros A P k x l Hl Hx. revert k. induction Hl as [|y r Hy Hr IH]; intros [|k]; cbn [upd_nth]; constructor; auto.
+Qed.
+
+Lemma nth_overflow_default : forall (A : Type) (k : nat) (d : A) (l : list A), (length l <= k)%nat -> nth k l d = d.
+Proof. intros. apply nth_overflow. assumption. Qed.
+
+(** ** pending writes, eventual file, well-formed worlds *)
+Definition rank_writes (r : rstate) : list wr := log_writes (l_entries (r_log r)).
+Definition pending (w : world) : list wr := flat_map rank_writes (w_rs w).
+Definition EB (w : world) : fmap := apply_writes (pending w) (w_file w).
+
+Definition good (w : world) : Prop :=
+  NoDup (map fst (pending w)) /\ Forall (fun r => log_ok (r_log r)) (w_rs w) /\ w_spin w = false.
+
+Lemma rank_writes_init : rank_writes rank_init = [].
+Proof. reflexivity. Qed.
+
+Lemma get_rank_overflow : forall w k, (length (w_rs w) <= k)%nat -> get_rank w k = rank_init.
+Proof. intros w k H. unfold get_rank. apply nth_overflow. exact H. Qed.
+
+Lemma pending_split : forall w k, (k < length (w_rs w))%nat ->
+  pending w = flat_map rank_writes (firstn k (w_rs w)) ++ rank_writes (get_rank w k)
+              ++ flat_map rank_writes (skipn (S k) (w_rs w)).
+Proof.
+  intros w k Hk. unfold pending, get_rank.
+  rewrite (nth_split_eq rstate k rank_init (w_rs w) Hk) at 1.
+  rewrite flat_map_app. cbn [flat_map]. reflexivity.
+Qed.
+
+Lemma pending_set_rank : forall w k r, (k < length (w_rs w))%nat ->
+  pending (set_rank w k r) = flat_map rank_writes (firstn k (w_rs w)) ++ rank_writes r
+                             ++ flat_map rank_writes (skipn (S k) (w_rs w)).
+Proof.
+  intros w k r Hk. unfold pending, set_rank. cbn [w_rs].
+  rewrite upd_nth_split by exact Hk. rewrite flat_map_app. cbn [flat_map]. reflexivity.
+Qed.
+
+Lemma set_rank_overflow : forall w k r, (length (w_rs w) <= k)%nat -> w_rs (set_rank w k r) = w_rs w.
+Proof. intros w k r H. unfold set_rank. cbn [w_rs]. apply upd_nth_ge. exact H. Qed.
+
+Lemma NoDup_keys_perm : forall a b : list wr, Permutation a b -> NoDup (map fst a) -> NoDup (map fst b).
+Proof. intros a b Hp Hn. eapply Permutation_NoDup; [apply Permutation_map; exact Hp | exact Hn]. Qed.
+
+Lemma perm_middle_front : forall (A : Type) (a w b : list A), Permutation (a ++ w ++ b) (w ++ a ++ b).
+Proof. intros. rewrite !app_assoc. apply Permutation_app_tail. apply Permutation_app_comm. Qed.
+
+Lemma NoDup_keys_drop_middle : forall a w b : list wr, NoDup (map fst (a ++ w ++ b)) -> NoDup (map fst (a ++ b)).
+Proof.
+  intros a w b H. apply (NoDup_keys_perm _ _ (perm_middle_front _ a w b)) in H.
+  rewrite map_app in H. apply NoDup_app_r in H. exact H.
+Qed.
+
+Section Session.
+Variable ord : list wr -> list wr.
+Hypothesis Hord : forall l, Permutation (ord l) l.
+Variable cfg : config.
+
+(** ** flushing one rank (independent mode) *)
+Lemma flush_rank_spec : forall k w, good w ->
+  let w' := flush_rank cfg ord k w in
+  good w' /\ (forall x, EB w' x = EB w x) /\ rank_writes (get_rank w' k) = [] /\
+  (forall j, j <> k -> get_rank w' j = get_rank w j) /\
+  length (w_rs w') = length (w_rs w) /\ w_indep w' = w_indep w.
+Proof.
+  intros k w (Hnd & Hok & Hsp). cbv zeta. unfold flush_rank.
+  destruct (l_entries (r_log (get_rank w k))) as [|e0 es0] eqn:Ees.
+  - (* nothing logged *)
+    repeat split; try assumption; try reflexivity.
+    unfold rank_writes. rewrite Ees. reflexivity.
+  - assert (Hk : (k < length (w_rs w))%nat).
+    { destruct (Nat.lt_ge_cases k (length (w_rs w))) as [H|H]; [exact H|].
+      rewrite (get_rank_overflow w k H) in Ees. discriminate. }
+    assert (Hlk : log_ok (r_log (get_rank w k))).
+    { rewrite Forall_forall in Hok. apply Hok. unfold get_rank. apply nth_In. exact Hk. }
+    rewrite <- Ees.
+    destruct (flush_core_rank_ok (c_hint cfg) true (c_inj cfg k)
+                (count_loop (buffer_size (c_hint cfg) (r_log (get_rank w k))) (l_entries (r_log (get_rank w k))))
+                (r_log (get_rank w k)) (r_pl (get_rank w k)) (r_g (get_rank w k)) Hlk (Z.le_refl _))
+      as (fr & Hfr & Hcat & _).
+    rewrite Hfr.
+    set (r' := mkR (log_reset (r_log (get_rank w k))) (fr_putlist fr) (r_slots (get_rank w k))
+                   (r_stack (get_rank w k)) (r_fresh (get_rank w k))
+                   (Z.max (r_nr (get_rank w k)) (log_recs (l_entries (r_log (get_rank w k)))))
+                   (fr_g fr) (r_ev (get_rank w k) ++ fr_events fr)).
+    set (f' := replay ord (fr_batches fr) (w_file w)).
+    assert (Hrw' : rank_writes r' = []) by reflexivity.
+    assert (Hlen' : length (w_rs (set_file w f')) = length (w_rs w)) by reflexivity.
+    assert (Hpend' : pending (set_rank (set_file w f') k r') =
+                     flat_map rank_writes (firstn k (w_rs w)) ++ flat_map rank_writes (skipn (S k) (w_rs w))).
+    { rewrite pending_set_rank by (rewrite Hlen'; exact Hk). rewrite Hrw'. reflexivity. }
+    pose proof (pending_split w k Hk) as Hsplit.
+    set (A := flat_map rank_writes (firstn k (w_rs w))) in *.
+    set (B := flat_map rank_writes (skipn (S k) (w_rs w))) in *.
+    set (W := rank_writes (get_rank w k)) in *.
+    assert (HndW : NoDup (map fst W)).
+    { rewrite Hsplit in Hnd. rewrite map_app in Hnd. apply NoDup_app_r in Hnd.
+      rewrite map_app in Hnd. apply NoDup_app_l in Hnd. exact Hnd. }
+    assert (Hf' : forall x, f' x = apply_writes W (w_file w) x).
+    { intro x. unfold f'. rewrite (flush_refines_direct ord Hord).
+      - rewrite Hcat. reflexivity.
+      - rewrite Hcat. exact HndW. }
+    split; [|split; [|split; [|split; [|split]]]].
+    + (* good *)
+      split; [|split].
+      * rewrite Hpend'. rewrite Hsplit in Hnd. apply (NoDup_keys_drop_middle A W B). exact Hnd.
+      * unfold set_rank, set_file. cbn [w_rs]. apply Forall_upd_nth; [exact Hok|]. apply log_reset_ok.
+      * unfold set_rank, set_file. cbn [w_spin]. exact Hsp.
+    + intro x. unfold EB. rewrite Hpend'.
+      change (w_file (set_rank (set_file w f') k r')) with f'.
+      rewrite (apply_writes_ext (A ++ B) f' (apply_writes W (w_file w)) Hf').
+      rewrite <- apply_writes_app. rewrite Hsplit.
+      apply apply_writes_perm.
+      * apply Permutation_sym. apply perm_middle_front.
+      * apply (NoDup_keys_perm (A ++ W ++ B)); [apply perm_middle_front|]. rewrite <- Hsplit. exact Hnd.
+    + unfold get_rank, set_rank, set_file. cbn [w_rs]. rewrite nth_upd_nth_same by exact Hk. exact Hrw'.
+    + intros j Hj. unfold get_rank, set_rank, set_file. cbn [w_rs]. apply nth_upd_nth_other. exact Hj.
+    + unfold set_rank, set_file. cbn [w_rs]. apply upd_nth_length.
+    + reflexivity.
+Qed.
+
+(** ** the collective flush *)
+Lemma flush_ranks_spec : forall nall rs k, Forall (fun r => log_ok (r_log r)) rs ->
+  (forall r, In r rs -> rank_rounds cfg r <= nall) ->
+  exists l, flush_ranks cfg nall k rs = Some l /\
+    Forall2 (fun r x => concat (snd x) = l_entries (r_log r) /\ (length (snd x) <= Z.to_nat nall)%nat /\
+                        r_log (fst x) = log_reset (r_log r)) rs l.
+Proof.
+  intros nall rs. induction rs as [|r rest IH]; intros k Hall Hle.
+  - exists []. split; [reflexivity | constructor].
+  - inversion Hall as [|x xs Hr Hrest]; subst.
+    destruct (flush_core_rank_ok (c_hint cfg) false (c_inj cfg k) nall (r_log r) (r_pl r) (r_g r) Hr
+                (Hle r (or_introl eq_refl))) as (fr & Hfr & Hcat & Htr & _ & Htreq & _).
+    destruct (IH (S k) Hrest (fun x Hx => Hle x (or_intror Hx))) as (l & Hl & Hf2).
+    cbn [flush_ranks]. rewrite Hfr, Hl. eexists. split; [reflexivity|].
+    constructor; [|exact Hf2]. cbn [fst snd r_log]. split; [exact Hcat|]. split; [lia | reflexivity].
+Qed.
+
+Lemma Forall2_pending : forall rs (l : list (rstate * list (list entry))),
+  Forall2 (fun r x => concat (snd x) = l_entries (r_log r) /\ (length (snd x) <= 0 + Z.to_nat 0 + length (snd x))%nat /\ True) rs l ->
+  flat_map (fun bs => log_writes (concat bs)) (map snd l) = flat_map rank_writes rs.
+Proof.
+  intros rs l H. induction H as [|r x rs l (Hc & _) _ IH]; [reflexivity|].
+  cbn [map flat_map]. rewrite IH, Hc. reflexivity.
+Qed.
+
+Lemma flush_all_spec : forall w, good w ->
+  let w' := flush_all cfg ord w in
+  good w' /\ (forall x, EB w' x = EB w x) /\ pending w' = [] /\
+  length (w_rs w') = length (w_rs w) /\ w_indep w' = w_indep w.
+Proof.
+  intros w (Hnd & Hok & Hsp). cbv zeta. unfold flush_all.
+  set (nall := zmax_list (map (rank_rounds cfg) (w_rs w))).
+  destruct (flush_ranks_spec nall (w_rs w) 0 Hok) as (l & Hl & Hf2).
+  { intros r Hin. apply zmax_list_ge. apply in_map. exact Hin. }
+  rewrite Hl. clearbody nall.
+  set (m := zmax_list (map (fun r => log_recs (l_entries (r_log r))) (w_rs w))). clearbody m.
+  assert (Hbss : flat_map (fun bs => log_writes (concat bs)) (map snd l) = pending w).
+  { unfold pending. clear - Hf2. induction Hf2 as [|r x rs l (Hc & _) _ IH]; [reflexivity|].
+    cbn [map flat_map]. rewrite IH, Hc. reflexivity. }
+  assert (Hlenb : forall bs, In bs (map snd l) -> (length bs <= Z.to_nat nall)%nat).
+  { intros bs Hin. apply in_map_iff in Hin. destruct Hin as (x & Hx & Hin). subst bs.
+    clear - Hf2 Hin. induction Hf2 as [|r y rs l (_ & Hle & _) _ IH]; [destruct Hin|].
+    destruct Hin as [E | Hin]; [subst; exact Hle | apply IH; exact Hin]. }
+  assert (Hfile : forall x, replay_rounds ord (map snd l) (Z.to_nat nall) (w_file w) x = EB w x).
+  { intro x. rewrite (replay_rounds_refines ord Hord _ _ _ Hlenb); rewrite Hbss; [reflexivity | exact Hnd]. }
+  assert (Hpend' : flat_map rank_writes (map (fun x => set_nr (Z.max (r_nr (fst x)) m) (fst x)) l) = []).
+  { clear - Hf2. induction Hf2 as [|r x rs l (_ & _ & Hlog) _ IH]; [reflexivity|].
+    cbn [map flat_map]. rewrite IH. unfold rank_writes, set_nr. cbn [r_log]. rewrite Hlog. reflexivity. }
+  split; [|split; [|split; [|split]]].
+  - split; [|split].
+    + unfold pending. cbn [w_rs]. rewrite Hpend'. constructor.
+    + cbn [w_rs]. clear - Hf2. induction Hf2 as [|r x rs l (_ & _ & Hlog) _ IH]; [constructor|].
+      cbn [map]. constructor; [|exact IH]. unfold set_nr. cbn [r_log]. rewrite Hlog. apply log_reset_ok.
+    + cbn [w_spin]. exact Hsp.
+  - intro x. unfold EB at 1. unfold pending. cbn [w_rs w_file]. rewrite Hpend'. cbn [apply_writes]. apply Hfile.
+  - unfold pending. cbn [w_rs]. exact Hpend'.
+  - cbn [w_rs]. rewrite map_length. clear - Hf2. induction Hf2; cbn [length]; [reflexivity | f_equal; assumption].
+  - reflexivity.
+Qed.
+
+Lemma in_pending_rank : forall w y, In y (pending w) ->
+  exists j, (j < length (w_rs w))%nat /\ In y (rank_writes (get_rank w j)).
+Proof.
+  intros w y H. unfold pending in H. apply in_flat_map in H. destruct H as (r & Hr & Hy).
+  destruct (In_nth _ _ rank_init Hr) as (j & Hj & Ej). exists j. split; [exact Hj|].
+  unfold get_rank. rewrite Ej. exact Hy.
+Qed.
+
+(** ** any flush trigger *)
+Lemma flush_ranks_indep_spec : forall who w, good w ->
+  let w' := fold_left (fun w k => flush_rank cfg ord k w) who w in
+  good w' /\ (forall x, EB w' x = EB w x) /\ length (w_rs w') = length (w_rs w) /\ w_indep w' = w_indep w /\
+  (forall k, In k who -> rank_writes (get_rank w' k) = []) /\
+  (forall k, rank_writes (get_rank w' k) = [] \/ get_rank w' k = get_rank w k).
+Proof.
+  induction who as [|k who IH]; intros w Hg; cbv zeta.
+  - cbn [fold_left]. split; [exact Hg|]. split; [reflexivity|]. split; [reflexivity|]. split; [reflexivity|].
+    split; [intros k [] | intro k; right; reflexivity].
+  - cbn [fold_left].
+    destruct (flush_rank_spec k w Hg) as (Hg1 & He1 & Hk1 & Ho1 & Hl1 & Hi1).
+    set (w1 := flush_rank cfg ord k w) in *.
+    destruct (IH w1 Hg1) as (Hg2 & He2 & Hl2 & Hi2 & Hin2 & Hor2).
+    split; [exact Hg2|]. split; [intro x; rewrite He2; apply He1|].
+    split; [rewrite Hl2; exact Hl1|]. split; [rewrite Hi2; exact Hi1|].
+    split.
+    + intros j [E | Hj]; [subst j | apply Hin2; exact Hj].
+      destruct (Hor2 k) as [H | H]; [exact H | rewrite H; exact Hk1].
+    + intro j. destruct (Hor2 j) as [H | H]; [left; exact H|].
+      destruct (Nat.eq_dec j k) as [E | Hne].
+      * subst j. left. rewrite H. exact Hk1.
+      * right. rewrite H. apply Ho1. exact Hne.
+Qed.
+
+Lemma trigger_flush_spec : forall who w, good w ->
+  let w' := trigger_flush cfg ord who w in
+  good w' /\ (forall x, EB w' x = EB w x) /\ length (w_rs w') = length (w_rs w) /\ w_indep w' = w_indep w /\
+  (forall k, In k who -> rank_writes (get_rank w' k) = []) /\
+  (forall k, rank_writes (get_rank w' k) = [] \/ get_rank w' k = get_rank w k) /\
+  (w_indep w = false -> pending w' = []).
+Proof.
+  intros who w Hg. cbv zeta. unfold trigger_flush. destruct (w_indep w) eqn:Ei.
+  - destruct (flush_ranks_indep_spec who w Hg) as (H1 & H2 & H3 & H4 & H5 & H6).
+    split; [exact H1|]. split; [exact H2|]. split; [exact H3|]. split; [rewrite H4; exact Ei|].
+    split; [exact H5|]. split; [exact H6 | intro H; discriminate].
+  - destruct (flush_all_spec w Hg) as (Hg1 & He1 & Hp1 & Hl1 & Hi1).
+    split; [exact Hg1|]. split; [exact He1|]. split; [exact Hl1|]. split; [rewrite Hi1; exact Ei|].
+    assert (Hall : forall k, rank_writes (get_rank (flush_all cfg ord w) k) = []).
+    { intro k. destruct (Nat.lt_ge_cases k (length (w_rs (flush_all cfg ord w)))) as [Hk | Hk].
+      - pose proof (pending_split _ k Hk) as Hs. rewrite Hp1 in Hs.
+        symmetry in Hs. apply app_eq_nil in Hs. destruct Hs as [_ Hs]. apply app_eq_nil in Hs. tauto.
+      - rewrite get_rank_overflow by exact Hk. reflexivity. }
+    split; [intros k _; apply Hall|]. split; [intro k; left; apply Hall|]. intros _. exact Hp1.
+Qed.
+
+(** ** the SPEC side of a session and the simulation relation *)
+Definition dpend (d : dworld) : list wr := flat_map (fun t => req_writes (snd t)) (d_pend d).
+Definition ED (d : dworld) : fmap := apply_writes (dpend d) (lf_map (d_file d)).
+Definition sim (w : world) (d : dworld) : Prop :=
+  (forall x, EB w x = ED d x) /\ NoDup (map fst (dpend d)).
+
+(** executable well-formedness of one operation (the documented discipline) *)
+Definition keys (ws : list wr) : list key := map fst ws.
+Definition memk (x : key) (l : list key) : bool := existsb (key_eqb x) l.
+Fixpoint nodupk (l : list key) : bool :=
+  match l with [] => true | x :: r => negb (memk x r) && nodupk r end.
+Definition disjk (a b : list key) : bool := forallb (fun x => negb (memk x b)) a.
+
+Definition wf_reqb (r : request) : bool :=
+  match r with
+  | RVar _ _ elsz _ cnt _ _ => (0 <? elsz) && match cnt with Some c => forallb (fun x => 0 <? x) c | None => true end
+  | RVarn _ _ elsz subs _ _ =>
+      (0 <=? elsz) && forallb (fun sc => match snd sc with Some c => forallb (fun x => 0 <=? x) c | None => true end) subs
+  end.
+
+Definition wf_write (w : world) (d : dworld) (k : nat) (req : request) : bool :=
+  (k <? length (w_rs w))%nat && wf_reqb req && nodupk (keys (req_writes req))
+  && disjk (keys (req_writes req)) (keys (pending w)) && disjk (keys (req_writes req)) (keys (dpend d)).
+
+Definition wf_read (w : world) (d : dworld) (who : list (nat * list key)) : bool :=
+  forallb (fun rk => forallb (fun x =>
+      negb (memk x (keys (dpend d))) &&
+      (negb (w_indep w) ||
+       forallb (fun j => existsb (Nat.eqb j) (map fst who) || negb (memk x (keys (rank_writes (get_rank w j)))))
+               (all_ranks w)))
+    (snd rk)) who.
+
+Definition wf_wait (w : world) (who : list (nat * waitarg)) : bool :=
+  let calls := map (fun ka => calls_ncmpio_wait (w_indep w) (snd ka)) who in
+  w_indep w || negb (existsb id calls && existsb negb calls).
+
+Definition wf_stepb (w : world) (d : dworld) (o : op) : bool :=
+  match o with
+  | OPut _ k req => wf_write w d k req
+  | OIput _ k _ req => wf_write w d k req
+  | OCancel _ _ _ => false          (* cancellation is covered by the correspondence check only *)
+  | OGet _ who => wf_read w d who
+  | OWait _ _ who => wf_wait w who
+  | OReopen _ => match pending w with [] => true | _ => false end
+  | _ => true
+  end.
+
+Lemma memk_spec : forall x l, memk x l = true <-> In x l.
+Proof.
+  intros x l. unfold memk. rewrite existsb_exists. split.
+  - intros (y & Hy & E). apply key_eqb_spec in E. subst y. exact Hy.
+  - intro H. exists x. split; [exact H | apply key_eqb_refl].
+Qed.
+
+Lemma memk_false : forall x l, memk x l = false -> ~ In x l.
+Proof. intros x l H Hin. apply memk_spec in Hin. rewrite Hin in H. discriminate. Qed.
+
+Lemma nodupk_spec : forall l, nodupk l = true -> NoDup l.
+Proof.
+  induction l as [|x r IH]; intro H; [constructor|].
+  cbn [nodupk] in H. apply andb_true_iff in H. destruct H as [H1 H2].
+  constructor; [apply memk_false; apply negb_true_iff; exact H1 | apply IH; exact H2].
+Qed.
+
+Lemma disjk_spec : forall a b, disjk a b = true -> forall x, In x a -> ~ In x b.
+Proof.
+  intros a b H x Hx. unfold disjk in H. rewrite forallb_forall in H.
+  apply memk_false. apply negb_true_iff. apply H. exact Hx.
+Qed.
+
+Lemma NoDup_app_intro : forall (A : Type) (a b : list A), NoDup a -> NoDup b ->
+  (forall x, In x a -> ~ In x b) -> NoDup (a ++ b).
+Proof.
+  intros A a b Ha Hb Hd. induction Ha as [|x r Hx Hr IH]; [exact Hb|].
+  cbn [app]. constructor.
+  - intro Hin. apply in_app_or in Hin. destruct Hin as [Hin | Hin]; [exact (Hx Hin)|].
+    exact (Hd x (or_introl eq_refl) Hin).
+  - apply IH. intros y Hy. apply Hd. right. exact Hy.
+Qed.
+
+Lemma apply_pt : forall ws f g x, f x = g x -> apply_writes ws f x = apply_writes ws g x.
+Proof.
+  induction ws as [|kv r IH]; intros f g x H; [exact H|].
+  cbn [apply_writes]. apply IH. unfold upd. destruct (key_eqb x (fst kv)); [reflexivity | exact H].
+Qed.
+
+Lemma apply_key_in : forall ws f x, NoDup (map fst ws) -> In x (map fst ws) ->
+  exists v, In (x, v) ws /\ apply_writes ws f x = Some v.
+Proof.
+  intros ws f x Hnd Hin. apply in_map_iff in Hin. destruct Hin as ((k, v) & E & Hin). cbn [fst] in E. subst k.
+  exists v. split; [exact Hin | apply apply_writes_in; assumption].
+Qed.
+
+Lemma key_in_dec : forall (x : key) l, {In x l} + {~ In x l}.
+Proof. intros x l. apply in_dec. apply key_eq_dec. Qed.
+
+(** adding the writes [W] of one request to both sides *)
+Lemma add_writes_both : forall (P Dp W : list wr) (fb fd : fmap),
+  NoDup (map fst P) -> NoDup (map fst W) -> NoDup (map fst Dp) ->
+  (forall x, In x (map fst W) -> ~ In x (map fst P)) ->
+  (forall x, In x (map fst W) -> ~ In x (map fst Dp)) ->
+  (forall x, apply_writes P fb x = apply_writes Dp fd x) ->
+  forall x, apply_writes (P ++ W) fb x = apply_writes Dp (apply_writes W fd) x.
+Proof.
+  intros P Dp W fb fd HP HW HD HWP HWD Heq x. rewrite apply_writes_app.
+  destruct (key_in_dec x (map fst W)) as [Hin | Hout].
+  - destruct (apply_key_in W (apply_writes P fb) x HW Hin) as (v & Hv & E). rewrite E.
+    rewrite apply_writes_notin by (apply HWD; exact Hin).
+    symmetry. apply apply_writes_in; assumption.
+  - rewrite apply_writes_notin by exact Hout. rewrite Heq.
+    apply apply_pt. symmetry. apply apply_writes_notin. exact Hout.
+Qed.
+
+(** ** log_put on a well-formed request appends exactly one valid entry *)
+Lemma zprod_pos : forall c, forallb (fun x => 0 <? x) c = true -> 0 < zprod c.
+Proof.
+  induction c as [|x r IH]; intro H; [cbn; lia|].
+  cbn [forallb] in H. apply andb_true_iff in H. destruct H as [H1 H2]. apply Z.ltb_lt in H1.
+  cbn [zprod fold_right]. specialize (IH H2). unfold zprod in IH. nia.
+Qed.
+
+Lemma wf_req_ok : forall r, wf_reqb r = true -> req_ok r.
+Proof.
+  intros [vid isrec elsz st cnt str data | vid isrec elsz subs hc data] H; cbn [wf_reqb] in H;
+    apply andb_true_iff in H; destruct H as [H1 H2]; cbn [req_ok].
+  - apply Z.ltb_lt in H1. split; [lia|]. destruct cnt as [c|]; cbn [counts_nonneg]; [|exact I].
+    rewrite Forall_forall. rewrite forallb_forall in H2. intros x Hx. specialize (H2 x Hx). apply Z.ltb_lt in H2. lia.
+  - apply Z.leb_le in H1. split; [exact H1|]. rewrite Forall_forall. rewrite forallb_forall in H2.
+    intros sc Hsc. specialize (H2 sc Hsc). destruct (snd sc) as [c|]; cbn [counts_nonneg]; [|exact I].
+    rewrite Forall_forall. rewrite forallb_forall in H2. intros x Hx. specialize (H2 x Hx). apply Z.leb_le in H2. exact H2.
+Qed.
+
+Lemma log_put_entries : forall line r l, wf_reqb r = true ->
+  exists e, l_entries (log_put line r l) = l_entries l ++ [e] /\ e_valid e = true /\ e_req e = r.
+Proof.
+  intros line [vid isrec elsz st cnt str data | vid isrec elsz subs hc data] l H; cbn [wf_reqb] in H;
+    apply andb_true_iff in H; destruct H as [H1 H2]; cbn [log_put].
+  - apply Z.ltb_lt in H1.
+    assert (Hp : put_size_var elsz cnt <> 0).
+    { unfold put_size_var. destruct cnt as [c|]; [pose proof (zprod_pos c H2); nia | lia]. }
+    apply Z.eqb_neq in Hp. rewrite Hp. eexists. cbn [l_entries]. split; [reflexivity|]. split; reflexivity.
+  - eexists. cbn [l_entries]. split; [reflexivity|]. split; reflexivity.
+Qed.
+
+Lemma log_put_writes : forall line r l, wf_reqb r = true ->
+  log_writes (l_entries (log_put line r l)) = log_writes (l_entries l) ++ req_writes r.
+Proof.
+  intros line r l H. destruct (log_put_entries line r l H) as (e & He & Hv & Hr).
+  rewrite He, log_writes_app. f_equal. unfold log_writes. cbn [flat_map]. rewrite app_nil_r.
+  unfold entry_writes. rewrite Hv, Hr. reflexivity.
+Qed.
+
+Lemma log_writes_map_reqid : forall id es, log_writes (map (set_reqid id) es) = log_writes es.
+Proof.
+  intros id es. unfold log_writes. induction es as [|e r IH]; [reflexivity|].
+  cbn [map flat_map]. rewrite IH. reflexivity.
+Qed.
+
+Lemma skipn_add : forall (A : Type) (y x : nat) (l : list A), skipn x (skipn y l) = skipn (y + x) l.
+Proof.
+  intros A y. induction y as [|y IH]; intros x l; [reflexivity|].
+  destruct l as [|a r]; [cbn [skipn plus]; destruct x; reflexivity|]. cbn [skipn plus]. apply IH.
+Qed.
+
+Lemma mark_range_writes : forall id a b es, (a <= b)%nat -> log_writes (mark_range id a b es) = log_writes es.
+Proof.
+  intros id a b es Hab. unfold mark_range. rewrite !log_writes_app, log_writes_map_reqid.
+  rewrite <- !log_writes_app. f_equal.
+  replace (skipn b es) with (skipn (b - a) (skipn a es)).
+  - rewrite firstn_skipn. apply firstn_skipn.
+  - rewrite skipn_add. f_equal. lia.
+Qed.
+
+Lemma do_put_spec : forall line req r, wf_reqb req = true -> log_ok (r_log r) ->
+  rank_writes (do_put line req r) = rank_writes r ++ req_writes req /\ log_ok (r_log (do_put line req r)).
+Proof.
+  intros line req r Hwf Hok. unfold do_put, rank_writes, set_log. cbn [r_log]. split.
+  - apply log_put_writes. exact Hwf.
+  - apply log_put_ok; [apply wf_req_ok; exact Hwf | exact Hok].
+Qed.
+
+Lemma do_iput_spec : forall line slot req r, wf_reqb req = true -> log_ok (r_log r) ->
+  rank_writes (snd (do_iput line slot req r)) = rank_writes r ++ req_writes req /\
+  log_ok (r_log (snd (do_iput line slot req r))).
+Proof.
+  intros line slot req r Hwf Hok. unfold do_iput.
+  assert (Hal : r_log (snd (id_alloc r)) = r_log r).
+  { unfold id_alloc. destruct (r_stack r); reflexivity. }
+  destruct (id_alloc r) as [id r1] eqn:Ea. cbn [snd] in Hal. cbn [snd].
+  destruct (log_put_entries line req (r_log r1) Hwf) as (e & He & Hv & Hr).
+  unfold rank_writes. cbn [r_log l_entries]. split.
+  - rewrite mark_range_writes.
+    + rewrite log_put_writes by exact Hwf. rewrite Hal. reflexivity.
+    + rewrite He, app_length. lia.
+  - apply (mark_range_ok id _ _ (log_put line req (r_log r1))).
+    apply log_put_ok; [apply wf_req_ok; exact Hwf | rewrite Hal; exact Hok].
+Qed.
+
+(** replacing rank [k] by a state whose log holds [W] more writes *)
+Lemma set_rank_add_writes : forall w k r' W, (k < length (w_rs w))%nat -> good w ->
+  rank_writes r' = rank_writes (get_rank w k) ++ W -> log_ok (r_log r') ->
+  NoDup (map fst W) -> (forall x, In x (map fst W) -> ~ In x (map fst (pending w))) ->
+  good (set_rank w k r') /\ Permutation (pending (set_rank w k r')) (pending w ++ W) /\
+  w_file (set_rank w k r') = w_file w.
+Proof.
+  intros w k r' W Hk (Hnd & Hok & Hsp) Hrw Hlog HW Hdis.
+  pose proof (pending_split w k Hk) as Hs. pose proof (pending_set_rank w k r' Hk) as Hs'.
+  rewrite Hrw in Hs'.
+  assert (Hperm : Permutation (pending (set_rank w k r')) (pending w ++ W)).
+  { rewrite Hs', Hs. rewrite <- !app_assoc. apply Permutation_app_head. apply Permutation_app_head.
+    apply Permutation_app_comm. }
+  split; [|split; [exact Hperm | reflexivity]].
+  split; [|split].
+  - apply (NoDup_keys_perm (pending w ++ W)); [apply Permutation_sym; exact Hperm|].
+    rewrite map_app. apply NoDup_app_intro; [exact Hnd | exact HW|].
+    intros x Hx Hx'. exact (Hdis x Hx' Hx).
+  - unfold set_rank. cbn [w_rs]. apply Forall_upd_nth; assumption.
+  - exact Hsp.
+Qed.
+
+(** replacing rank [k] by a state with the same log *)
+Lemma set_rank_same_log : forall w k r', good w -> r_log r' = r_log (get_rank w k) ->
+  good (set_rank w k r') /\ pending (set_rank w k r') = pending w /\ w_file (set_rank w k r') = w_file w /\
+  length (w_rs (set_rank w k r')) = length (w_rs w) /\ w_indep (set_rank w k r') = w_indep w.
+Proof.
+  intros w k r' (Hnd & Hok & Hsp) Hlog.
+  assert (Hp : pending (set_rank w k r') = pending w).
+  { destruct (Nat.lt_ge_cases k (length (w_rs w))) as [Hk | Hk].
+    - rewrite pending_set_rank, (pending_split w k Hk) by exact Hk. unfold rank_writes. rewrite Hlog. reflexivity.
+    - unfold pending. rewrite set_rank_overflow by exact Hk. reflexivity. }
+  split; [|split; [exact Hp | split; [reflexivity | split; [apply upd_nth_length | reflexivity]]]].
+  split; [rewrite Hp; exact Hnd | split; [|exact Hsp]].
+  unfold set_rank. cbn [w_rs]. apply Forall_upd_nth; [exact Hok|]. rewrite Hlog.
+  destruct (Nat.lt_ge_cases k (length (w_rs w))) as [Hk | Hk].
+  - rewrite Forall_forall in Hok. apply Hok. unfold get_rank. apply nth_In. exact Hk.
+  - rewrite get_rank_overflow by exact Hk. exact log_init_ok.
+Qed.
+
+(** ** one operation preserves the simulation *)
+Lemma wf_write_facts : forall w d k req, wf_write w d k req = true ->
+  (k < length (w_rs w))%nat /\ wf_reqb req = true /\ NoDup (map fst (req_writes req)) /\
+  (forall x, In x (map fst (req_writes req)) -> ~ In x (map fst (pending w))) /\
+  (forall x, In x (map fst (req_writes req)) -> ~ In x (map fst (dpend d))).
+Proof.
+  intros w d k req H. unfold wf_write in H. repeat rewrite andb_true_iff in H.
+  destruct H as ((((H1 & H2) & H3) & H4) & H5).
+  split; [apply Nat.ltb_lt; exact H1|]. split; [exact H2|]. split; [apply nodupk_spec; exact H3|].
+  split; [apply disjk_spec; exact H4 | apply disjk_spec; exact H5].
+Qed.
+
+Lemma sim_add_writes : forall w d k req r', good w -> sim w d -> wf_write w d k req = true ->
+  rank_writes r' = rank_writes (get_rank w k) ++ req_writes req -> log_ok (r_log r') ->
+  good (set_rank w k r') /\
+  (forall x, EB (set_rank w k r') x = apply_writes (dpend d) (apply_writes (req_writes req) (lf_map (d_file d))) x) /\
+  (forall x, EB (set_rank w k r') x = apply_writes (dpend d ++ req_writes req) (lf_map (d_file d)) x) /\
+  NoDup (map fst (dpend d ++ req_writes req)).
+Proof.
+  intros w d k req r' Hg (Hs & Hdn) Hwf Hrw Hlog.
+  destruct (wf_write_facts w d k req Hwf) as (Hk & Hreq & HW & HWP & HWD).
+  destruct (set_rank_add_writes w k r' (req_writes req) Hk Hg Hrw Hlog HW HWP) as (Hg' & Hperm & Hfile).
+  pose proof Hg as (Hnd & _ & _). pose proof Hg' as (Hnd' & _ & _).
+  assert (E1 : forall x, EB (set_rank w k r') x = apply_writes (pending w ++ req_writes req) (w_file w) x).
+  { intro x. unfold EB. rewrite Hfile. apply apply_writes_perm; [exact Hperm | exact Hnd']. }
+  split; [exact Hg'|]. split; [|split].
+  - intro x. rewrite E1. apply add_writes_both; assumption.
+  - intro x. rewrite E1. rewrite !apply_writes_app. apply apply_writes_ext. exact Hs.
+  - rewrite map_app. apply NoDup_app_intro; [exact Hdn | exact HW|]. intros x Hx Hx'. exact (HWD x Hx' Hx).
+Qed.
+
+(** waiting does not touch the log *)
+Lemma id_free_log : forall id r, r_log (id_free id r) = r_log r.
+Proof. reflexivity. Qed.
+
+Lemma handle_put_log : forall s r, r_log (snd (handle_put s r)) = r_log r.
+Proof.
+  intros s r. unfold handle_put. destruct (slot_get (r_slots r) s); [|reflexivity].
+  destruct (pl_get (r_pl r) z); reflexivity.
+Qed.
+
+Lemma handle_list_log : forall l r, r_log (snd (handle_list l r)) = r_log r.
+Proof.
+  induction l as [|s l IH]; intro r; [reflexivity|]. cbn [handle_list].
+  destruct s as [sl | |].
+  - pose proof (handle_put_log sl r) as H1. destruct (handle_put sl r) as [st r1]. cbn [snd] in H1.
+    pose proof (IH r1) as H2. destruct (handle_list l r1) as [sts r2]. cbn [snd] in *. rewrite H2. exact H1.
+  - pose proof (IH r) as H2. destruct (handle_list l r) as [sts r2]. cbn [snd] in *. exact H2.
+  - pose proof (IH r) as H2. destruct (handle_list l r) as [sts r2]. cbn [snd] in *. exact H2.
+Qed.
+
+Lemma handle_all_log : forall r, r_log (handle_all r) = r_log r.
+Proof.
+  intro r. unfold handle_all. generalize (sort_z (map fst (r_pl r))). intro l. revert r.
+  induction l as [|id l IH]; intro r; [reflexivity|]. cbn [fold_left]. rewrite IH. reflexivity.
+Qed.
+
+Lemma wait_rank_log : forall line coll indep k a r, r_log (snd (wait_rank line coll indep k a r)) = r_log r.
+Proof.
+  intros line coll indep k a r. unfold wait_rank. destruct a as [l | num].
+  - pose proof (handle_list_log l r) as H. destruct (handle_list l r) as [sts r1]. cbn [snd] in *.
+    destruct ((0 <? count_gets l) || negb indep); cbn [snd]; [unfold add_ev; cbn [r_log]|]; exact H.
+  - cbn [snd].
+    destruct ((num =? NC_REQ_ALL) || (num =? NC_PUT_REQ_ALL)); destruct ((num =? NC_REQ_ALL) || (num =? NC_GET_REQ_ALL));
+      unfold add_ev; cbn [r_log]; try rewrite handle_all_log; reflexivity.
+Qed.
+
+Definition same_state (w w' : world) : Prop :=
+  good w' /\ pending w' = pending w /\ w_file w' = w_file w /\ length (w_rs w') = length (w_rs w) /\ w_indep w' = w_indep w.
+
+Lemma same_state_refl : forall w, good w -> same_state w w.
+Proof. intros w H. repeat split; try reflexivity; apply H. Qed.
+
+Lemma wait_fold_same : forall line coll indep who w obs0, good w ->
+  same_state w (fst (fold_left (fun (acc : world * list obs) (ka : nat * waitarg) =>
+                   let '(sts, r') := wait_rank line coll indep (fst ka) (snd ka) (get_rank (fst acc) (fst ka)) in
+                   (set_rank (fst acc) (fst ka) r', snd acc ++ [sts])) who (w, obs0))).
+Proof.
+  intros line coll indep who. induction who as [|ka who IH]; intros w obs0 Hg.
+  - cbn [fold_left fst]. apply same_state_refl. exact Hg.
+  - cbn [fold_left]. cbn [fst snd].
+    pose proof (wait_rank_log line coll indep (fst ka) (snd ka) (get_rank w (fst ka))) as Hl.
+    destruct (wait_rank line coll indep (fst ka) (snd ka) (get_rank w (fst ka))) as [sts r'] eqn:Ew. cbn [snd] in Hl.
+    destruct (set_rank_same_log w (fst ka) r' Hg Hl) as (Hg1 & Hp1 & Hf1 & Hn1 & Hi1).
+    destruct (IH (set_rank w (fst ka) r') (obs0 ++ [sts]) Hg1) as (Hg2 & Hp2 & Hf2 & Hn2 & Hi2).
+    split; [exact Hg2|]. split; [rewrite Hp2; exact Hp1|]. split; [rewrite Hf2; exact Hf1|].
+    split; [rewrite Hn2; exact Hn1 | rewrite Hi2; exact Hi1].
+Qed.
+
+(** the SPEC side of a wait: completed requests move from the pending list into the file *)
+Lemma filter_partition_perm : forall (A : Type) (f : A -> bool) (l : list A),
+  Permutation l (filter f l ++ filter (fun x => negb (f x)) l).
+Proof.
+  intros A f l. induction l as [|x r IH]; [constructor|].
+  cbn [filter]. destruct (f x); cbn [negb app].
+  - constructor. exact IH.
+  - apply Permutation_cons_app. exact IH.
+Qed.
+
+Lemma dwait_one : forall d k sl, NoDup (map fst (dpend d)) ->
+  let '(reqs, rest) := d_take k sl (d_pend d) in
+  let d' := mkD (fold_left (fun f r => direct_put r f) reqs (d_file d)) rest in
+  (forall x, ED d' x = ED d x) /\ NoDup (map fst (dpend d')).
+Proof.
+  intros d k sl Hnd. unfold d_take.
+  set (sel := fun x : nat * Z * request =>
+                Nat.eqb (fst (fst x)) k && match sl with None => true | Some l => existsb (Z.eqb (snd (fst x))) l end).
+  cbv zeta.
+  set (tk := filter sel (d_pend d)). set (rest := filter (fun x => negb (sel x)) (d_pend d)).
+  assert (Hperm : Permutation (dpend d) (flat_map req_writes (map snd tk) ++ flat_map (fun t => req_writes (snd t)) rest)).
+  { unfold dpend. rewrite flat_map_map_comp. rewrite <- flat_map_app.
+    apply Permutation_flat_map. apply filter_partition_perm. }
+  assert (Hnd2 : NoDup (map fst (flat_map req_writes (map snd tk) ++ flat_map (fun t => req_writes (snd t)) rest))).
+  { apply (NoDup_keys_perm _ _ Hperm). exact Hnd. }
+  split.
+  - intro x. unfold ED, dpend. cbn [d_pend d_file]. rewrite direct_puts_map. rewrite <- apply_writes_app.
+    symmetry. apply apply_writes_perm; [exact Hperm | exact Hnd].
+  - unfold dpend. cbn [d_pend]. rewrite map_app in Hnd2. apply NoDup_app_r in Hnd2. exact Hnd2.
+Qed.
+
+Lemma dwait_fold : forall who d, NoDup (map fst (dpend d)) ->
+  let d' := fold_left (fun d (ka : nat * waitarg) =>
+                    let sl := match snd ka with
+                              | WList l => Some (wslots_puts l)
+                              | WAllKind num => if num =? NC_GET_REQ_ALL then Some [] else None
+                              end in
+                    let '(reqs, rest) := d_take (fst ka) sl (d_pend d) in
+                    mkD (fold_left (fun f r => direct_put r f) reqs (d_file d)) rest) who d in
+  (forall x, ED d' x = ED d x) /\ NoDup (map fst (dpend d')).
+Proof.
+  induction who as [|ka who IH]; intros d Hnd; cbv zeta.
+  - cbn [fold_left]. split; [reflexivity | exact Hnd].
+  - cbn [fold_left].
+    set (sl := match snd ka with
+               | WList l => Some (wslots_puts l)
+               | WAllKind num => if num =? NC_GET_REQ_ALL then Some [] else None
+               end).
+    pose proof (dwait_one d (fst ka) sl Hnd) as H1.
+    destruct (d_take (fst ka) sl (d_pend d)) as [reqs rest]. cbv zeta in H1. destruct H1 as [He1 Hn1].
+    destruct (IH _ Hn1) as [He2 Hn2]. cbv zeta in He2, Hn2.
+    split; [intro x; rewrite He2; apply He1 | exact Hn2].
+Qed.
+
+Lemma sync_numrecs_same : forall w, good w -> same_state w (sync_numrecs w).
+Proof.
+  intros w (Hnd & Hok & Hsp). unfold sync_numrecs.
+  set (m := zmax_list (map r_nr (w_rs w))). clearbody m.
+  assert (Hp : pending (mkW (w_file w) (map (set_nr m) (w_rs w)) (w_indep w) (w_logs w) (w_spin w)) = pending w).
+  { unfold pending. cbn [w_rs]. rewrite flat_map_map_comp. reflexivity. }
+  split; [|split; [exact Hp | split; [reflexivity | split; [cbn [w_rs]; apply map_length | reflexivity]]]].
+  split; [rewrite Hp; exact Hnd | split; [|exact Hsp]].
+  cbn [w_rs]. rewrite Forall_forall in *. intros r Hr. apply in_map_iff in Hr. destruct Hr as (r0 & E & Hr0).
+  subst r. unfold set_nr. cbn [r_log]. apply Hok. exact Hr0.
+Qed.
+
+Lemma reflag_good : forall w b l, good w ->
+  good (mkW (w_file w) (w_rs w) b l (w_spin w)) /\
+  pending (mkW (w_file w) (w_rs w) b l (w_spin w)) = pending w /\
+  w_file (mkW (w_file w) (w_rs w) b l (w_spin w)) = w_file w.
+Proof.
+  intros w b l (Hnd & Hok & Hsp). split; [|split; reflexivity]. split; [exact Hnd | split; [exact Hok | exact Hsp]].
+Qed.
+
+Lemma EB_same : forall w w', pending w' = pending w -> w_file w' = w_file w -> forall x, EB w' x = EB w x.
+Proof. intros w w' Hp Hf x. unfold EB. rewrite Hp, Hf. reflexivity. Qed.
+
+Definition is_get (o : op) : bool := match o with OGet _ _ => true | _ => false end.
+
+Lemma all_ranks_in : forall w j, (j < length (w_rs w))%nat -> In j (all_ranks w).
+Proof. intros w j H. unfold all_ranks. apply in_seq. lia. Qed.
+
+(** operations after which every rank's log is empty *)
+Definition is_sync_point (w : world) (o : op) : bool :=
+  match o with
+  | OSync _ | OFlush _ | ORedef _ | OClose _ => true
+  | OWait _ _ _ | OGet _ _ => negb (w_indep w)       (* wait_all / get_all in collective mode *)
+  | _ => false
+  end.
+
+Lemma all_flushed : forall w w1, length (w_rs w1) = length (w_rs w) ->
+  (forall k, In k (all_ranks w) -> rank_writes (get_rank w1 k) = []) -> pending w1 = [].
+Proof.
+  intros w w1 Hl H. unfold pending. apply flat_map_nil_all. intros r Hr.
+  destruct (In_nth _ _ rank_init Hr) as (j & Hj & Ej). rewrite <- Ej. apply (H j).
+  apply all_ranks_in. rewrite <- Hl. exact Hj.
+Qed.
+
+Theorem step_sim : forall w d o, good w -> sim w d -> wf_stepb w d o = true ->
+  good (fst (step cfg ord w o)) /\ sim (fst (step cfg ord w o)) (fst (dstep d o)) /\
+  (is_get o = true -> snd (step cfg ord w o) = snd (dstep d o)) /\
+  (is_sync_point w o = true -> pending (fst (step cfg ord w o)) = []).
+Proof.
+  intros w d o Hg Hsim Hwf. pose proof Hsim as (Hs & Hdn).
+  destruct o as [line k req | line k slot req | line k slots | line who | line coll who | line | line | line | | | line | line | line];
+    cbn [wf_stepb] in Hwf; cbn [step dstep is_get is_sync_point].
+  - (* OPut *)
+    destruct (wf_write_facts w d k req Hwf) as (Hk & Hreq & _).
+    assert (Hlk : log_ok (r_log (get_rank w k))).
+    { destruct Hg as (_ & Hok & _). rewrite Forall_forall in Hok. apply Hok. unfold get_rank. apply nth_In. exact Hk. }
+    destruct (do_put_spec line req (get_rank w k) Hreq Hlk) as (Hrw & Hlog).
+    destruct (sim_add_writes w d k req _ Hg Hsim Hwf Hrw Hlog) as (Hg' & E1 & _ & _).
+    cbn [fst snd]. split; [exact Hg'|]. split; [|split; intro H; discriminate].
+    split; [|exact Hdn]. intro x. rewrite E1. reflexivity.
+  - (* OIput *)
+    destruct (wf_write_facts w d k req Hwf) as (Hk & Hreq & _).
+    assert (Hlk : log_ok (r_log (get_rank w k))).
+    { destruct Hg as (_ & Hok & _). rewrite Forall_forall in Hok. apply Hok. unfold get_rank. apply nth_In. exact Hk. }
+    destruct (do_iput_spec line slot req (get_rank w k) Hreq Hlk) as (Hrw & Hlog).
+    destruct (do_iput line slot req (get_rank w k)) as [id r'] eqn:Ei. cbn [snd] in Hrw, Hlog.
+    destruct (sim_add_writes w d k req r' Hg Hsim Hwf Hrw Hlog) as (Hg' & _ & E2 & Hn2).
+    cbn [fst snd]. split; [exact Hg'|]. split; [|split; intro H; discriminate].
+    assert (Edp : dpend (mkD (d_file d) (d_pend d ++ [(k, slot, req)])) = dpend d ++ req_writes req).
+    { unfold dpend. cbn [d_pend]. rewrite flat_map_app. cbn [flat_map snd]. rewrite app_nil_r. reflexivity. }
+    split; [|rewrite Edp; exact Hn2]. intro x. rewrite E2. unfold ED. rewrite Edp. reflexivity.
+  - discriminate.
+  - (* OGet *)
+    change (bb_trig_get && bb_trig_getn) with true. cbv iota.
+    destruct (trigger_flush_spec (map fst who) w Hg) as (Hg1 & He1 & Hl1 & Hi1 & Hin1 & Hor1 & Hcoll1).
+    set (w1 := trigger_flush cfg ord (map fst who) w) in *.
+    cbn [fst snd]. split; [exact Hg1|]. split; [split; [intro x; rewrite He1; apply Hs | exact Hdn]|].
+    split; [|intro H; apply Hcoll1; apply negb_true_iff; exact H].
+    intros _. apply map_ext_in. intros rk Hrk. do 3 f_equal. apply map_ext_in. intros x Hx. f_equal.
+    unfold wf_read in Hwf. rewrite forallb_forall in Hwf. specialize (Hwf rk Hrk).
+    rewrite forallb_forall in Hwf. specialize (Hwf x Hx). apply andb_true_iff in Hwf. destruct Hwf as [Hd Hr].
+    assert (Hnd : ~ In x (map fst (dpend d))) by (apply memk_false; apply negb_true_iff; exact Hd).
+    assert (Hnp : ~ In x (map fst (pending w1))).
+    { intro Hin. apply in_map_iff in Hin. destruct Hin as (y & Ey & Hy).
+      destruct (in_pending_rank w1 y Hy) as (j & Hj & Hyj).
+      destruct (w_indep w) eqn:Ei.
+      - cbn [negb orb] in Hr. rewrite forallb_forall in Hr.
+        assert (Hja : In j (all_ranks w)) by (apply all_ranks_in; rewrite <- Hl1; exact Hj).
+        specialize (Hr j Hja). apply orb_true_iff in Hr. destruct Hr as [Hr | Hr].
+        + apply existsb_exists in Hr. destruct Hr as (j' & Hj' & E). apply Nat.eqb_eq in E. subst j'.
+          rewrite (Hin1 j Hj') in Hyj. destruct Hyj.
+        + destruct (Hor1 j) as [H | H]; [rewrite H in Hyj; destruct Hyj|].
+          rewrite H in Hyj. apply negb_true_iff in Hr. apply memk_false in Hr. apply Hr.
+          unfold keys. apply in_map_iff. exists y. split; [exact Ey | exact Hyj].
+      - rewrite (Hcoll1 eq_refl) in Hy. destruct Hy. }
+    transitivity (EB w1 x).
+    + unfold EB. symmetry. apply apply_writes_notin. exact Hnp.
+    + rewrite He1, Hs. unfold ED. apply apply_writes_notin. exact Hnd.
+  - (* OWait *)
+    change bb_trig_wait with true. cbv iota.
+    destruct (trigger_flush_spec (map fst who) w Hg) as (Hg1 & He1 & Hl1 & Hi1 & _ & _ & Hcoll1).
+    set (w1 := trigger_flush cfg ord (map fst who) w) in *. cbv zeta.
+    assert (Hno : (negb (w_indep w1) && existsb id (map (fun ka => calls_ncmpio_wait (w_indep w1) (snd ka)) who)
+                   && existsb negb (map (fun ka => calls_ncmpio_wait (w_indep w1) (snd ka)) who)) = false).
+    { unfold wf_wait in Hwf. cbv zeta in Hwf. rewrite Hi1. destruct (w_indep w); [reflexivity|].
+      cbn [orb negb] in Hwf. cbn [negb andb]. apply negb_true_iff in Hwf. exact Hwf. }
+    rewrite Hno.
+    destruct (wait_fold_same line coll (w_indep w1) who w1 [] Hg1) as (Hg2 & Hp2 & Hf2 & _).
+    split; [exact Hg2|].
+    split; [|split; [intro H; discriminate | intro H; rewrite Hp2; apply Hcoll1; apply negb_true_iff; exact H]].
+    destruct (dwait_fold who d Hdn) as (Hed & Hnd'). cbv zeta in Hed, Hnd'. cbn [fst].
+    split; [|exact Hnd']. intro x. rewrite (EB_same w1 _ Hp2 Hf2), He1, Hs. symmetry. apply Hed.
+  - (* OSync *)
+    change bb_trig_sync with true. cbv iota.
+    destruct (trigger_flush_spec (all_ranks w) w Hg) as (Hg1 & He1 & Hl1 & _ & Hin1 & _).
+    set (w1 := trigger_flush cfg ord (all_ranks w) w) in *. cbn [fst snd].
+    pose proof (all_flushed w w1 Hl1 Hin1) as Hemp.
+    destruct (w_indep w1).
+    + destruct (sync_numrecs_same w1 Hg1) as (Hg2 & Hp2 & Hf2 & _).
+      split; [exact Hg2|]. split; [|split; [intro H; discriminate | intros _; rewrite Hp2; exact Hemp]]. split; [|exact Hdn].
+      intro x. rewrite (EB_same w1 _ Hp2 Hf2), He1. apply Hs.
+    + split; [exact Hg1|]. split; [|split; [intro H; discriminate | intros _; exact Hemp]]. split; [|exact Hdn].
+      intro x. rewrite He1. apply Hs.
+  - (* OFlush *)
+    change bb_trig_flush with true. cbv iota.
+    destruct (trigger_flush_spec (all_ranks w) w Hg) as (Hg1 & He1 & Hl1 & _ & Hin1 & _). cbn [fst snd].
+    split; [exact Hg1|]. split; [|split; [intro H; discriminate | intros _; exact (all_flushed w _ Hl1 Hin1)]].
+    split; [|exact Hdn]. intro x. rewrite He1. apply Hs.
+  - (* ORedef *)
+    change bb_trig_redef with true. cbv iota.
+    destruct (trigger_flush_spec (all_ranks w) w Hg) as (Hg1 & He1 & Hl1 & _ & Hin1 & _). cbn [fst snd].
+    split; [exact Hg1|]. split; [|split; [intro H; discriminate | intros _; exact (all_flushed w _ Hl1 Hin1)]].
+    split; [|exact Hdn]. intro x. rewrite He1. apply Hs.
+  - (* OBeginIndep *)
+    destruct (reflag_good w true (w_logs w) Hg) as (Hg1 & Hp1 & Hf1). cbn [fst snd].
+    split; [exact Hg1|]. split; [|split; intro H; discriminate]. split; [|exact Hdn].
+    intro x. rewrite (EB_same w _ Hp1 Hf1). apply Hs.
+  - (* OEndIndep *)
+    destruct (sync_numrecs_same w Hg) as (Hg1 & Hp1 & Hf1 & _).
+    destruct (reflag_good (sync_numrecs w) false (w_logs (sync_numrecs w)) Hg1) as (Hg2 & Hp2 & Hf2). cbn [fst snd].
+    split; [exact Hg2|]. split; [|split; intro H; discriminate]. split; [|exact Hdn].
+    intro x. rewrite (EB_same (sync_numrecs w) _ Hp2 Hf2), (EB_same w _ Hp1 Hf1). apply Hs.
+  - (* OInq *)
+    cbn [fst snd]. split; [exact Hg|]. split; [exact Hsim | split; intro H; discriminate].
+  - (* OClose *)
+    unfold close_all. change bb_trig_close with true. cbv iota.
+    destruct (trigger_flush_spec (all_ranks w) w Hg) as (Hg1 & He1 & Hl1 & _ & Hin1 & _).
+    set (w1 := trigger_flush cfg ord (all_ranks w) w) in *.
+    pose proof (all_flushed w w1 Hl1 Hin1) as Hemp.
+    destruct (sync_numrecs_same w1 Hg1) as (Hg2 & Hp2 & Hf2 & _).
+    destruct (reflag_good (sync_numrecs w1) (w_indep (sync_numrecs w1))
+                (if c_del cfg then negb bb_unlink_on_close else true) Hg2) as (Hg3 & Hp3 & Hf3).
+    cbn [fst snd]. split; [exact Hg3|].
+    split; [|split; [intro H; discriminate | intros _; rewrite Hp3, Hp2; exact Hemp]]. split; [|exact Hdn].
+    intro x. rewrite (EB_same (sync_numrecs w1) _ Hp3 Hf3), (EB_same w1 _ Hp2 Hf2), He1. apply Hs.
+  - (* OReopen *)
+    destruct (pending w) as [|y ys] eqn:Ep; [|discriminate]. cbn [fst snd].
+    set (m := zmax_list (map r_nr (w_rs w))). clearbody m.
+    assert (Hp : pending (mkW (w_file w) (map (fun r => mkR log_init [] [] [] 0 m (r_g r) (r_ev r)) (w_rs w)) false true (w_spin w)) = []).
+    { unfold pending. cbn [w_rs]. rewrite flat_map_map_comp. apply flat_map_nil_all. intros r _. reflexivity. }
+    split; [|split; [|split; intro H; discriminate]].
+    + split; [rewrite Hp; constructor | split; [|destruct Hg as (_ & _ & H); exact H]].
+      cbn [w_rs]. rewrite Forall_forall. intros r Hr. apply in_map_iff in Hr. destruct Hr as (r0 & E & _). subst r.
+      cbn [r_log]. exact log_init_ok.
+    + split; [|exact Hdn]. intro x. unfold EB at 1. rewrite Hp. cbn [apply_writes w_file].
+      rewrite <- Hs. unfold EB. rewrite Ep. reflexivity.
+Qed.
+
+(** ** whole sessions *)
+Fixpoint wf_run (w : world) (d : dworld) (ops : list op) : Prop :=
+  match ops with
+  | [] => True
+  | o :: r => wf_stepb w d o = true /\ wf_run (fst (step cfg ord w o)) (fst (dstep d o)) r
+  end.
+
+Lemma run_cons_fst : forall w o r, fst (run cfg ord w (o :: r)) = fst (run cfg ord (fst (step cfg ord w o)) r).
+Proof.
+  intros w o r. cbn [run]. destruct (step cfg ord w o) as [w1 ob1]. cbn [fst].
+  destruct (run cfg ord w1 r) as [w2 ob2]. reflexivity.
+Qed.
+
+Lemma drun_cons_fst : forall d o r, fst (drun d (o :: r)) = fst (drun (fst (dstep d o)) r).
+Proof.
+  intros d o r. cbn [drun]. destruct (dstep d o) as [d1 ob1]. cbn [fst].
+  destruct (drun d1 r) as [d2 ob2]. reflexivity.
+Qed.
+
+Lemma run_app_fst : forall a b w, fst (run cfg ord w (a ++ b)) = fst (run cfg ord (fst (run cfg ord w a)) b).
+Proof.
+  induction a as [|o a IH]; intros b w; [reflexivity|].
+  rewrite <- app_comm_cons, !run_cons_fst. apply IH.
+Qed.
+
+Lemma drun_app_fst : forall a b d, fst (drun d (a ++ b)) = fst (drun (fst (drun d a)) b).
+Proof.
+  induction a as [|o a IH]; intros b d; [reflexivity|].
+  rewrite <- app_comm_cons, !drun_cons_fst. apply IH.
+Qed.
+
+Lemma wf_run_app : forall a b w d, wf_run w d (a ++ b) ->
+  wf_run w d a /\ wf_run (fst (run cfg ord w a)) (fst (drun d a)) b.
+Proof.
+  induction a as [|o a IH]; intros b w d H; [split; [exact I | exact H]|].
+  rewrite <- app_comm_cons in H. cbn [wf_run] in H. destruct H as [H1 H2].
+  destruct (IH b _ _ H2) as [H3 H4]. split; [split; assumption|].
+  rewrite run_cons_fst, drun_cons_fst. exact H4.
+Qed.
+
+Theorem run_sim : forall ops w d, good w -> sim w d -> wf_run w d ops ->
+  good (fst (run cfg ord w ops)) /\ sim (fst (run cfg ord w ops)) (fst (drun d ops)).
+Proof.
+  induction ops as [|o r IH]; intros w d Hg Hs Hwf; [split; assumption|].
+  cbn [wf_run] in Hwf. destruct Hwf as [H1 H2].
+  destruct (step_sim w d o Hg Hs H1) as (Hg1 & Hs1 & _).
+  rewrite run_cons_fst, drun_cons_fst. apply IH; assumption.
+Qed.
+
+Lemma good_init : forall np, good (world_init np).
+Proof.
+  intro np. unfold world_init. split; [|split; [|reflexivity]].
+  - unfold pending. cbn [w_rs]. rewrite (flat_map_nil_all _ _ rank_writes (repeat rank_init np)); [constructor|].
+    intros r Hr. apply repeat_spec in Hr. subst r. reflexivity.
+  - cbn [w_rs]. rewrite Forall_forall. intros r Hr. apply repeat_spec in Hr. subst r. exact log_init_ok.
+Qed.
+
+Lemma sim_init : forall np, sim (world_init np) dworld_init.
+Proof.
+  intro np. split; [|constructor]. intro x. unfold EB, ED, pending. cbn [w_rs world_init w_file].
+  rewrite (flat_map_nil_all _ _ rank_writes (repeat rank_init np)); [reflexivity|].
+  intros r Hr. apply repeat_spec in Hr. subst r. reflexivity.
+Qed.
+
+(** READ OWN WRITES: after any well-formed history, a well-formed get (its elements have no
+    pending nonblocking write, and in independent mode no unflushed write of a rank that does not
+    take part in the call) returns exactly what the default driver returns: the driver flushes the
+    callers' logs first. *)
+Theorem read_own_writes : forall np ops line who,
+  wf_run (world_init np) dworld_init (ops ++ [OGet line who]) ->
+  snd (step cfg ord (fst (run cfg ord (world_init np) ops)) (OGet line who)) =
+  snd (dstep (fst (drun dworld_init ops)) (OGet line who)).
+Proof.
+  intros np ops line who Hwf. destruct (wf_run_app ops [OGet line who] _ _ Hwf) as [Ha Hb].
+  destruct (run_sim ops _ _ (good_init np) (sim_init np) Ha) as [Hg Hs].
+  cbn [wf_run] in Hb. destruct Hb as [Hb _].
+  destruct (step_sim _ _ _ Hg Hs Hb) as (_ & _ & Hget & _). apply Hget. reflexivity.
+Qed.
+
+(** VISIBLE AFTER SYNC POINTS: after sync / flush / redef / close (any mode) and after wait_all /
+    get_all in collective mode, no rank has anything left in its log and the destination file holds
+    every write made so far by every process (all of the default driver's file, plus the nonblocking
+    puts that the default driver still has pending). *)
+Theorem visible_after_sync_points : forall np ops o,
+  wf_run (world_init np) dworld_init (ops ++ [o]) ->
+  is_sync_point (fst (run cfg ord (world_init np) ops)) o = true ->
+  let w1 := fst (run cfg ord (world_init np) (ops ++ [o])) in
+  let d1 := fst (drun dworld_init (ops ++ [o])) in
+  pending w1 = [] /\ w_spin w1 = false /\ (forall x, w_file w1 x = ED d1 x) /\
+  (d_pend d1 = [] -> forall x, w_file w1 x = lf_map (d_file d1) x).
+Proof.
+  intros np ops o Hwf Hsp. cbv zeta. destruct (wf_run_app ops [o] _ _ Hwf) as [Ha Hb].
+  destruct (run_sim ops _ _ (good_init np) (sim_init np) Ha) as [Hg Hs].
+  cbn [wf_run] in Hb. destruct Hb as [Hb _].
+  destruct (step_sim _ _ _ Hg Hs Hb) as (Hg1 & (Hs1 & _) & _ & Hemp).
+  rewrite run_app_fst, drun_app_fst. rewrite (run_cons_fst _ o []), (drun_cons_fst _ o []). cbn [run drun fst].
+  specialize (Hemp Hsp).
+  assert (Hfile : forall x, w_file (fst (step cfg ord (fst (run cfg ord (world_init np) ops)) o)) x =
+                            ED (fst (dstep (fst (drun dworld_init ops)) o)) x).
+  { intro x. rewrite <- Hs1. unfold EB. rewrite Hemp. reflexivity. }
+  split; [exact Hemp|]. split; [destruct Hg1 as (_ & _ & H); exact H|]. split; [exact Hfile|].
+  intros Hnone x. rewrite Hfile. unfold ED, dpend. rewrite Hnone. reflexivity.
+Qed.
+
+(** BB = DEFAULT AT CLOSE: for every well-formed program that ends with close and has waited for
+    all its nonblocking puts, the destination file written through the burst-buffer driver equals the
+    file written by the default driver, no rank hangs or spins on the way, and the log files exist
+    afterwards iff retention was requested. *)
+Theorem bb_equals_default : forall np ops line,
+  wf_run (world_init np) dworld_init (ops ++ [OClose line]) ->
+  let w1 := fst (run cfg ord (world_init np) (ops ++ [OClose line])) in
+  let d1 := fst (drun dworld_init (ops ++ [OClose line])) in
+  d_pend d1 = [] ->
+  (forall x, w_file w1 x = lf_map (d_file d1) x) /\ w_spin w1 = false /\ w_logs w1 = negb (c_del cfg).
+Proof.
+  intros np ops line Hwf. cbv zeta. intro Hnone.
+  destruct (visible_after_sync_points np ops (OClose line) Hwf eq_refl) as (_ & Hsp & _ & Hf). cbv zeta in Hf.
+  split; [exact (Hf Hnone)|]. split; [exact Hsp|].
+  rewrite run_app_fst, (run_cons_fst _ (OClose line) []). cbn [run fst step].
+  apply log_removed_at_close.
+Qed.
+
+End Session.
+
+(** the hypotheses are satisfiable: a two-rank session with blocking and nonblocking puts, an
+    independent-mode phase, reads of own and of flushed foreign data, a one-entry flush buffer *)
+Definition ex_cfg : config := mkCfg 1 true (fun _ _ => 0).
+Definition ex_ops : list op :=
+  [ OPut 1 0 (RVar 0 true 4 [0; 0] (Some [1; 4]) None [1; 2; 3; 4]);
+    OPut 2 1 (RVar 0 true 4 [1; 0] (Some [1; 4]) None [5; 6; 7; 8]);
+    OIput 3 0 0 (RVarn 1 false 8 [([0], Some [2]); ([3], Some [1])] true [9; 10; 11]);
+    OGet 4 [(0%nat, [(0, [0; 1])]); (1%nat, [(0, [1; 2])])];
+    OWait 5 true [(0%nat, WList [WPut 0]); (1%nat, WList [])];
+    OGet 6 [(0%nat, [(0, [1; 3]); (1, [3])]); (1%nat, [(0, [0; 0])])];
+    OBeginIndep;
+    OPut 7 1 (RVar 0 true 4 [2; 1] (Some [1; 2]) (Some [1; 2]) [12; 13]);
+    OGet 8 [(1%nat, [(0, [2; 3])])];
+    OSync 9; OEndIndep;
+    OPut 10 0 (RVar 0 true 4 [2; 1] (Some [1; 1]) None [14]);
+    OClose 11 ].
+
+Example session_example :
+  wf_run ord_id ex_cfg (world_init 2) dworld_init ex_ops /\
+  d_pend (fst (drun dworld_init ex_ops)) = [] /\
+  snd (run ex_cfg ord_id (world_init 2) (firstn 4 ex_ops)) = [[20; 3; 0; 0]; [40; 4; 0; 2]; [40; 4; 1; 7]] /\
+  map (fun x => w_file (fst (run ex_cfg ord_id (world_init 2) ex_ops)) x) [(0, [2; 1]); (0, [2; 3]); (1, [3]); (1, [2])]
+  = [Some 14; Some 13; Some 11; None].
+Proof.
+  split; [|split; [|split]].
+  - cbn [ex_ops wf_run]. repeat (split; [vm_compute; reflexivity|]). exact I.
+  - vm_compute. reflexivity.
+  - vm_compute. reflexivity.
+  - vm_compute. reflexivity.
+Qed.
+
+(** ** record count *)
+Lemma flush_ranks_nr : forall (cfg : config) nall rs k l, flush_ranks cfg nall k rs = Some l ->
+  map (fun x => r_nr (fst x)) l = map r_nr rs.
+Proof.
+  intros cfg nall rs. induction rs as [|r rest IH]; intros k l H; cbn [flush_ranks] in H.
+  - inversion H. reflexivity.
+  - destruct (flush_core_rank (c_hint cfg) false (c_inj cfg k) nall (r_log r) (r_pl r) (r_g r)) as [fr|]; [|discriminate].
+    destruct (flush_ranks cfg nall (S k) rest) as [l'|] eqn:E; [|discriminate].
+    inversion H. subst l. cbn [map fst r_nr]. f_equal. apply (IH (S k)). exact E.
+Qed.
+
+Lemma map_set_nr : forall m (l : list (rstate * list (list entry))) rs,
+  map (fun x => r_nr (fst x)) l = map r_nr rs ->
+  map (fun x => r_nr (set_nr (Z.max (r_nr (fst x)) m) (fst x))) l = map (fun r => Z.max (r_nr r) m) rs.
+Proof.
+  intros m l. induction l as [|x l IH]; intros rs H; destruct rs as [|r rs]; cbn [map] in H |- *.
+  - reflexivity.
+  - discriminate H.
+  - discriminate H.
+  - inversion H as [[H1 H2]]. rewrite (IH rs H2). unfold set_nr at 1. cbn [r_nr]. rewrite H1. reflexivity.
+Qed.
+
+(** after a collective flush every rank's record count is its old count raised to the largest
+    record extent of ANY rank's flushed entries: ranks that agreed before agree afterwards *)
+Theorem collective_flush_numrecs : forall (ord : list wr -> list wr) (cfg : config) w, good w ->
+  let m := zmax_list (map (fun r => log_recs (l_entries (r_log r))) (w_rs w)) in
+  map r_nr (w_rs (flush_all cfg ord w)) = map (fun r => Z.max (r_nr r) m) (w_rs w) /\
+  (forall r, In r (w_rs w) -> log_recs (l_entries (r_log r)) <= m).
+Proof.
+  intros ord cfg w (Hnd & Hok & Hsp). cbv zeta. split.
+  - unfold flush_all.
+    destruct (flush_ranks_spec cfg (zmax_list (map (rank_rounds cfg) (w_rs w))) (w_rs w) 0 Hok) as (l & Hl & _).
+    { intros r Hin. apply zmax_list_ge. apply in_map. exact Hin. }
+    rewrite Hl. cbn [w_rs]. rewrite map_map.
+    pose proof (flush_ranks_nr cfg _ _ _ _ Hl) as Hnr.
+    set (m := zmax_list (map (fun r => log_recs (l_entries (r_log r))) (w_rs w))) in *. clearbody m.
+    apply map_set_nr. exact Hnr.
+  - intros r Hin. apply zmax_list_ge. apply (in_map (fun r => log_recs (l_entries (r_log r)))). exact Hin.
+Qed.
+
+(** a process sees the records it has written at once (ncbbio_inq_dim), before any flush *)
+Theorem own_records_visible_var : forall line vid elsz st c t data r, 0 < elsz -> 0 <= l_recdim (r_log r) ->
+  req_recs (RVar vid true elsz st (Some c) t data) <= numrecs_view (do_put line (RVar vid true elsz st (Some c) t data) r).
+Proof.
+  intros line vid elsz st c t data r He Hr. unfold numrecs_view, do_put, set_log. cbn [r_log r_nr].
+  pose proof (log_put_recdim_var line vid elsz st c t data (r_log r) He Hr) as H. cbv zeta in H. rewrite H. lia.
+Qed.
+
+Theorem own_records_visible_varn : forall line vid elsz subs hc data r, 0 < elsz -> 0 <= l_recdim (r_log r) ->
+  req_recs (RVarn vid true elsz subs hc data) <= numrecs_view (do_put line (RVarn vid true elsz subs hc data) r).
+Proof.
+  intros line vid elsz subs hc data r He Hr. unfold numrecs_view, do_put, set_log. cbn [r_log r_nr].
+  pose proof (log_put_recdim_varn line vid elsz subs hc data (r_log r) He Hr) as H. cbv zeta in H. rewrite H. lia.
+Qed.
+
+Print Assumptions step_sim.
+Print Assumptions read_own_writes.
+Print Assumptions visible_after_sync_points.
+Print Assumptions bb_equals_default.
+Print Assumptions collective_flush_numrecs.
